@@ -51,15 +51,48 @@ func mkDoc(x *engine.Exec, cd *Codec, fam, class string, doc []byte, want model.
 
 const anyStatus = model.Status(-1)
 
+// docScope bounds the document languages.
+type docScope struct {
+	Nodes     int // max nodes of tree documents
+	UBJTypes  int // element types used for typed UBJSON containers
+	JSONTok   int // max tokens of JSON structure sequences
+	JSONAtoms int // max atoms per JSON string literal
+	NumStride int // take every NumStride-th number literal
+	Ctx       int // number of contexts scalars are embedded in (0 = all)
+	ScStride  int // take every ScStride-th scalar (0/1 = all)
+}
+
+func strideOf[T any](all []T, k int) []T {
+	if k <= 1 {
+		return all
+	}
+	var out []T
+	for i := 0; i < len(all); i += k {
+		out = append(out, all[i])
+	}
+	return out
+}
+
+func (sc docScope) ctx(all int) int {
+	if sc.Ctx > 0 && sc.Ctx < all {
+		return sc.Ctx
+	}
+	return all
+}
+
+func conformScope(tier string) docScope {
+	return docScope{Nodes: tierPick(tier, 4, 5), UBJTypes: tierPick(tier, 8, 15), JSONTok: tierPick(tier, 6, 8), JSONAtoms: tierPick(tier, 2, 3), NumStride: 1}
+}
+
 // cborDocFamilies: the CBOR document language of C05 (DESIGN §5).
-func cborDocFamilies(tier string, run docBody) []engine.Family {
-	scalars := gen.CBORScalars()
+func cborDocFamilies(sc docScope, run docBody) []engine.Family {
+	scalars := strideOf(gen.CBORScalars(), sc.ScStride)
 	unsup := gen.CBORUnsupported()
 	keys := gen.CBORNonTextKeys()
-	maxNodes := tierPick(tier, 4, 5)
+	maxNodes := sc.Nodes
 	return []engine.Family{
 		{Name: "cbor-scalars", Arity: []int{gen.NumCBORContexts}, Body: func(x *engine.Exec) {
-			ctx := x.Choose(gen.NumCBORContexts)
+			ctx := x.Choose(sc.ctx(gen.NumCBORContexts))
 			s := scalars[x.Choose(len(scalars))]
 			mkDoc(x, codecCBOR, "cbor-scalars", s.Class, gen.CBORContext(ctx, s.B), model.Complete, run)
 		}},
@@ -108,13 +141,13 @@ func cborDocFamilies(tier string, run docBody) []engine.Family {
 }
 
 // ubjDocFamilies: the UBJSON document language of C06.
-func ubjDocFamilies(tier string, run docBody) []engine.Family {
-	scalars := gen.UBJScalars()
-	maxNodes := tierPick(tier, 4, 5)
-	nTypes := tierPick(tier, 8, 15)
+func ubjDocFamilies(sc docScope, run docBody) []engine.Family {
+	scalars := strideOf(gen.UBJScalars(), sc.ScStride)
+	maxNodes := sc.Nodes
+	nTypes := sc.UBJTypes
 	return []engine.Family{
 		{Name: "ubj-scalars", Arity: []int{gen.NumUBJContexts}, Body: func(x *engine.Exec) {
-			ctx := x.Choose(gen.NumUBJContexts)
+			ctx := x.Choose(sc.ctx(gen.NumUBJContexts))
 			s := scalars[x.Choose(len(scalars))]
 			mkDoc(x, codecUBJSON, "ubj-scalars", s.Class, gen.UBJContext(ctx, s.B), model.Complete, run)
 		}},
@@ -185,10 +218,17 @@ func cat2(bs ...[]byte) []byte {
 }
 
 // jsonDocFamilies: the four JSON sub-languages of C04.
-func jsonDocFamilies(tier string, run docBody) []engine.Family {
-	maxTok := tierPick(tier, 6, 8)
-	bodies := gen.JSONStringBodies(tierPick(tier, 2, 3))
+func jsonDocFamilies(sc docScope, run docBody) []engine.Family {
+	maxTok := sc.JSONTok
+	bodies := gen.JSONStringBodies(sc.JSONAtoms)
 	nums := gen.JSONNumbers()
+	if sc.NumStride > 1 {
+		var sub []string
+		for i := 0; i < len(nums); i += sc.NumStride {
+			sub = append(sub, nums[i])
+		}
+		nums = sub
+	}
 	ws := gen.JSONWhitespace()
 	nt := len(gen.JSONTokens)
 	return []engine.Family{
@@ -236,7 +276,7 @@ func jsonDocFamilies(tier string, run docBody) []engine.Family {
 			mkDoc(x, codecJSON, "json-strings", cl, []byte(doc), model.Complete, run)
 		}},
 		{Name: "json-numbers", Arity: []int{len(gen.JSONNumberContexts)}, Body: func(x *engine.Exec) {
-			ctx := gen.JSONNumberContexts[x.Choose(len(gen.JSONNumberContexts))]
+			ctx := gen.JSONNumberContexts[x.Choose(sc.ctx(len(gen.JSONNumberContexts)))]
 			lit := nums[x.Choose(len(nums))]
 			doc := ctx[0] + lit + ctx[1]
 			cl := "number"
@@ -346,21 +386,21 @@ func init() {
 			ID: "C04", Level: "exploration",
 			Rule:        "four exhaustive JSON sub-languages: all sequences of <=N tokens over { } [ ] , : \"a\" 1 true (valid and invalid structure), all string literals of <=k atoms over 21 atoms (raw multi-byte, every escape, surrogate pairs, lone surrogates) in 3 positions, ~1600 number literals x 10 terminating contexts, all whitespace strings <=2 at every token boundary of 10 documents, nesting up to 64; each parsed by the real parser and compared with the reference decoder refjson (math/big numbers); distinct by document bytes, non-trivial = more than one byte",
 			Assumptions: []string{"refjson implements RFC 8259 (cross-checked against encoding/json in mc/model tests)", "documents outside the four sub-languages are not explored"},
-			Families:    func(tier string) []engine.Family { return jsonDocFamilies(tier, conformBody) },
+			Families:    func(tier string) []engine.Family { return jsonDocFamilies(conformScope(tier), conformBody) },
 			Require:     []string{"values_compared", "ref_malformed"},
 		})
 		engine.Register(&engine.Check{
 			ID: "C05", Level: "exploration",
 			Rule:        "all CBOR items of the grammar up to N data items (definite direct / non-minimal one-byte / indefinite containers, text keys incl. empty), every integer boundary argument in every width for both integer majors, float bit patterns, strings with every length width, one item per unsupported feature at 8 positions, nesting to 70; parsed by the real parser and compared with the reference decoder refcbor; distinct by bytes, non-trivial = more than one byte",
 			Assumptions: []string{"refcbor implements RFC 7049 section 2 (independent of the library)"},
-			Families:    func(tier string) []engine.Family { return cborDocFamilies(tier, conformBody) },
+			Families:    func(tier string) []engine.Family { return cborDocFamilies(conformScope(tier), conformBody) },
 			Require:     []string{"values_compared", "ref_unsupported"},
 		})
 		engine.Register(&engine.Check{
 			ID: "C06", Level: "exploration",
 			Rule:        "all UBJSON values of the grammar up to N nodes (plain, counted, typed containers over up to 15 element types incl. containers of containers, no-ops in plain arrays), every scalar marker with boundary payloads, every length marker for strings/H, typed containers followed by siblings, nesting to 40; parsed by the real parser and compared with the reference decoder refubj; distinct by bytes, non-trivial = more than one byte",
 			Assumptions: []string{"refubj implements UBJSON draft 12; no-ops inside counted/typed containers and inside objects are not generated (draft unclear)", "char is mapped to the integer of its byte, H to its string (library data model)"},
-			Families:    func(tier string) []engine.Family { return ubjDocFamilies(tier, conformBody) },
+			Families:    func(tier string) []engine.Family { return ubjDocFamilies(conformScope(tier), conformBody) },
 			Require:     []string{"values_compared"},
 		})
 	})
